@@ -47,6 +47,12 @@ CHECKS = {
         text="Generated programs place circuit-controllable entities (incl. pumps, power switches, chests read through .output) with every kind of enable expression; the blueprint is executed for valuations of inputs and chest contents and the condition of the entity found at the user-given tile must be true exactly when the reference value is positive, with the named signal's value on the wire equal to the reference value.",
         design_ref="DESIGN.md 3 (C06)",
     ),
+    "C07": dict(
+        category="exploration",
+        technique="runtime monitoring: the real CLI entry points run as subprocesses over an option matrix, their decoded output compared (canonical circuit form) with the plan monitor's in-process build and executed in the circuit model; plan-placement vs exported-JSON completeness monitor",
+        text="Small generated programs are compiled through python -m dsl_compiler, compile.py and cli.main over {file,-i} x {string,--json} x {stdout,-o} x {--no-optimize,--power-poles,--name} x cwd; the emitted text must decode, be the only thing on stdout, describe the same canonical circuit as the in-process build and as its --json twin, and execute to the reference outputs; in-process, every placement and wire of the LayoutPlan must appear in the exported JSON with its full configuration.",
+        design_ref="DESIGN.md 3 (C07)",
+    ),
     "C10": dict(
         category="exploration",
         technique="runtime monitoring: differential execution (optimised vs --no-optimize build of the same source) of the emitted blueprints, plus the reference-model oracle on the optimised build",
